@@ -129,3 +129,33 @@ Definition c20_rm_model (before : graph) (n : N) (after : graph) : N :=
   | Some es' => if same_wires_b (map wire_of es') (wires after) then 0 else 1
   | None => 1
   end.
+
+(* ---- multi-step: eliminate_extra_unions_tees = remove_intermediate_node for every node of a list
+   collected up front (unary unions first, then unary tees) *)
+Fixpoint elim (es : list edge) (rs : list N) (k : N) : option (list edge) :=
+  match rs with
+  | [] => Some es
+  | r :: rs' => match remove_mid es r k with
+                | Some es1 => elim es1 rs' (k + 1)
+                | None => None
+                end
+  end.
+
+(* end-to-end connections through a set R of pass-through nodes: a route starts where an edge
+   arrives (node x, input port q) and continues through out-edges while the node is in R *)
+Inductive route (es : list edge) (R : list N) : N -> port -> N -> port -> Prop :=
+| route_end x q : ~ In x R -> route es R x q x q
+| route_step x q o t pt : In x R -> In o es -> e_src o = x ->
+    route es R (e_dst o) (e_dport o) t pt -> route es R x q t pt.
+
+Definition conn (es : list edge) (R : list N) (w : wire) : Prop :=
+  let '(a, pa, t, pt) := w in
+  ~ In a R /\ exists e, In e es /\ e_src e = a /\ e_sport e = pa /\ route es R (e_dst e) (e_dport e) t pt.
+
+(* model vs implementation for eliminate_extra_unions_tees (bit 0): rs = the unary unions, then the
+   unary tees, in node order, as the Rust code collects them before removing any *)
+Definition c20_elim_model (before : graph) (rs : list N) (after : graph) : N :=
+  match elim (g_edges before) rs 0 with
+  | Some es' => if same_wires_b (map wire_of es') (wires after) then 0 else 1
+  | None => 1
+  end.
